@@ -80,6 +80,10 @@ func runC13(c *Ctx) {
 		}
 		sort.Slice(blks, func(i, j int) bool { return blks[i].Index < blks[j].Index })
 		okExits := true
+		var layerWriters []ssa.Instruction
+		if E != nil {
+			layerWriters = m.listWriters(E)
+		}
 		var at token.Pos = fo.goStmt.Pos()
 		for _, b := range blks {
 			if b == layer.Head {
@@ -93,6 +97,9 @@ func runC13(c *Ctx) {
 					r, ok := in.(*ssa.Return)
 					if !ok || in.Block() == fn.Recover {
 						return false
+					}
+					if E != nil && m.contradictoryListTests(in, E, layerWriters) {
+						return false // stands under two opposite tests of the unchanged error list
 					}
 					for _, pv := range x.PossibleValues(r.Results[len(r.Results)-1]) {
 						if pv.V == nil || !isNewError(pv.V) {
